@@ -151,7 +151,10 @@ line_to_cmds = Fn(P, 'line_to_cmds', ret='r', strvars=('sep',),
         ('C03.inv.l2c.no_empty_command_so_far', 'forall|k: int| 0 <= k < result@.len() ==> (#[trigger] result@[k])@.len() > 0'),
         ('C01+C03.inv.l2c.no_split_so_far', 'no_active_operator(line@) ==> result@.len() == 0 && (lq(line@, __I as int).0.len() == 0 ==> sep@.len() == 0)'),
     ])},
-    hints={'loop-0-body-entry': 'lemma_quote_lits(); lemma_lq_shape(line@, __I as int); lemma_lq_shape(line@, __I + 1); reveal_strlit(";");'},
+    hints={'loop-0-body-entry': 'lemma_quote_lits(); lemma_lq_shape(line@, __I as int); lemma_lq_shape(line@, __I + 1); reveal_strlit(";");',
+           # the rest of the line is dropped (a comment) only at an unquoted, unescaped `#` that stands where a word could start
+           'before-text:break;': 'LABEL:C01+C03.l2c.the_rest_of_the_line_is_dropped_only_at_a_hash_that_starts_a_word: '
+                                 'assert(line@[i as int] == \'#\' && lq(line@, i as int).0.len() == 0 && !lq(line@, i as int).1 && (token@.len() == 0 || token@.last() == \' \'));'},
 )
 
 tokens_to_line = Fn(P, 'tokens_to_line', ret='r',
